@@ -16,8 +16,11 @@ The specification `KG.Spec.Identity` is written on the RAW client header lines w
   the authenticated user when no impersonation is requested, the requested identity when every derived check is allowed.
 * `c02_no_client_identity_header`: under every identity bearing name, the upstream receives exactly what the gateway
   generates from that identity and its own token — for every client header set.
-* `c02_identity_decoded`, `c02_identity_exact`: the identity the upstream reconstructs.
-* `c02_judge_model`, `c02_judge_model_exact`: the judge the harness applies to the implementation accepts the model.
+* `c02_identity_decoded` (what the wire does to values), `c02_forwarded_values_survive`, `c02_identity_exact` /
+  `c02_full_exactness` (FULL strength, no hypothesis: forwarded ⇒ the upstream reconstructs exactly the identity),
+  `c02_not_carried_refused`, `c02_not_carried_never_reaches_upstream` (an identity a header cannot carry is answered 502
+  by the gateway and not forwarded).
+* `c02_judge_model`: the judge the harness applies to the implementation accepts the model, for every request.
 -/
 namespace KG.Props.C02
 open KG KG.Model.Identity KG.Spec.Identity KG.Lemmas.Identity
@@ -138,7 +141,7 @@ theorem c02_no_client_identity_header (token : Str) (raw : List (Str × Str)) (a
     (az : Attrs → Decision) (up : Bool) (recv : Headers) (ctx : Identity)
     (h : serve token raw auth az up = .forwarded recv ctx) (n : Str) (hn : isIdentityName n = true) :
     values recv n = values (sendOver up (gatewayHeaders token up ctx)) n := by
-  obtain ⟨u, h1, _, _, _, I1, I2, I3, rfl⟩ := serve_forwarded token raw auth az up recv ctx h
+  obtain ⟨u, h1, _, _, _, I1, I2, I3, _, rfl⟩ := serve_forwarded token raw auth az up recv ctx h
   exact wrap_values token up h1 ctx I1 I2 I3 n hn
 
 /-- in particular the client's `Authorization` never arrives: only the gateway's bearer token (nothing on the upgrade path) -/
@@ -150,29 +153,38 @@ theorem c02_authorization (token : Str) (raw : List (Str × Str)) (auth : Option
     sendOver_append, values_append, ← send_gwEntries, values_send_gw_authorization]
   cases up <;> simp [sendOver_eq, values, canonicalKey_hAuthorization]
 
-/-- **What the upstream is told to act as**, for every forwarded request: the context user with every value as the wire
-    carries it (`carried`); user, group list and extra keys (arbitrary bytes) are otherwise untouched. -/
+/-- What arrives, as a function of the wire alone (kept because it does not depend on `WrapRequest`'s value check): the
+    context user with every value as the wire carries it (`carried`); names of extra keys (arbitrary bytes) untouched.
+    `c02_identity_exact` removes `carried`. -/
 theorem c02_identity_decoded (token : Str) (raw : List (Str × Str)) (auth : Option Identity)
     (az : Attrs → Decision) (up : Bool) (recv : Headers) (ctx : Identity)
     (h : serve token raw auth az up = .forwarded recv ctx) :
     (decodeIdentity recv).name = carried up ctx.name ∧
     (decodeIdentity recv).groups = ctx.groups.map (carried up) ∧
     ∀ k, values (decodeIdentity recv).extra k = values (ctx.extra.map (fun e => (e.1, e.2.map (carried up)))) k := by
-  obtain ⟨u, h1, _, _, _, I1, I2, I3, rfl⟩ := serve_forwarded token raw auth az up recv ctx h
+  obtain ⟨u, h1, _, _, _, I1, I2, I3, _, rfl⟩ := serve_forwarded token raw auth az up recv ctx h
   obtain ⟨hn, hg, he⟩ := decode_wrapped token up h1 ctx I1 I2 I3
   refine ⟨?_, hg, he⟩
   simp only [decodeIdentity, hget]
   rw [hn]; rfl
 
-/-- **Identity exactness.** If every value of the identity to act as is one the wire carries unchanged (no white space
-    at its ends; on the upgrade path no CR / LF), the upstream reconstructs exactly that identity: the name, the groups in
-    order, and for every extra key — any byte string — the extra values in order. -/
+/-- `WrapRequest` forwards only identities whose every value survives a header field (`checkImpersonationValues`) -/
+theorem c02_forwarded_values_survive (token : Str) (raw : List (Str × Str)) (auth : Option Identity)
+    (az : Attrs → Decision) (up : Bool) (recv : Headers) (ctx : Identity)
+    (h : serve token raw auth az up = .forwarded recv ctx) : checkImpersonationValues ctx = true := by
+  obtain ⟨_, _, _, _, _, _, _, _, hk, _⟩ := serve_forwarded token raw auth az up recv ctx h
+  exact hk
+
+/-- **Identity exactness, full strength.** Whatever is forwarded — for every authenticated identity (arbitrary bytes in
+    names, groups, extra keys and values), every client header set, every policy, both paths — the upstream reconstructs
+    EXACTLY the identity to act as: the name, the groups in order, and for every extra key the values in order. -/
 theorem c02_identity_exact (token : Str) (raw : List (Str × Str)) (auth : Option Identity)
     (az : Attrs → Decision) (up : Bool) (recv : Headers) (ctx : Identity)
-    (h : serve token raw auth az up = .forwarded recv ctx) (hc : valuesCarried up ctx = true) :
+    (h : serve token raw auth az up = .forwarded recv ctx) :
     (decodeIdentity recv).name = ctx.name ∧ (decodeIdentity recv).groups = ctx.groups ∧
     ∀ k, values (decodeIdentity recv).extra k = values ctx.extra k := by
   obtain ⟨hn, hg, he⟩ := c02_identity_decoded token raw auth az up recv ctx h
+  have hc := check_valuesCarried up ctx (c02_forwarded_values_survive token raw auth az up recv ctx h)
   have h1 := carryIdentity_id up ctx hc
   have h1n : carried up ctx.name = ctx.name := by have := congrArg Identity.name h1; simpa [carryIdentity] using this
   have h1g : ctx.groups.map (carried up) = ctx.groups := by have := congrArg Identity.groups h1; simpa [carryIdentity] using this
@@ -182,19 +194,49 @@ theorem c02_identity_exact (token : Str) (raw : List (Str × Str)) (auth : Optio
   intro k
   rw [he k, h1e]
 
+/-- **Not carried ⇒ terminated by the gateway.** When the specification says "forward as `id`" but `id` has a name, group
+    or extra value a header field cannot carry (white space at an end, control byte), the gateway answers itself (502 on
+    both paths: `RoundTrip` / `DialForUpgrade` return `WrapRequest`'s error) and nothing reaches the upstream. -/
+theorem c02_not_carried_refused (token : Str) (raw : List (Str × Str)) (auth : Option Identity)
+    (az : Attrs → Decision) (up : Bool) (id : Identity) (he : expectedFor raw auth az = .forward id)
+    (hc : checkImpersonationValues id = false) : serve token raw auth az up = .valueRefused := by
+  simp only [expectedFor] at he
+  by_cases hv : rawValid raw = true
+  · have hv' : raw.all (fun l => validName l.1 && validValue l.2) = true := hv
+    simp only [hv', Bool.not_true, Bool.false_eq_true, if_false] at he
+    cases auth with
+    | none => simp at he
+    | some u =>
+      simp only at he
+      rcases serve_spec token raw u az up hv with ⟨s, hs, _⟩ | ⟨ctx, h1, hx, _, I2, I3, hs⟩
+      · rw [hs] at he; cases he
+      · rw [hx] at he
+        cases he
+        rw [hs, deliver_eq token up h1 _ I2 I3, hc]
+        simp
+  · have hv' : raw.all (fun l => validName l.1 && validValue l.2) = false := by simpa [rawValid] using hv
+    simp [hv'] at he
+
+/-- … in the words of the wire: an identity with a value that would not arrive as it is (`valuesCarried` false) is never forwarded -/
+theorem c02_not_carried_never_reaches_upstream (token : Str) (raw : List (Str × Str)) (auth : Option Identity)
+    (az : Attrs → Decision) (up : Bool) (recv : Headers) (ctx : Identity) (hc : valuesCarried up ctx = false) :
+    serve token raw auth az up ≠ .forwarded recv ctx := by
+  intro h
+  have := check_valuesCarried up ctx (c02_forwarded_values_survive token raw auth az up recv ctx h)
+  rw [hc] at this
+  cases this
+
 /-! ## the judge accepts the model -/
 
-/-- For every request, the judge applied to the model's output reports nothing but the recorded limitation of the wire
-    format (never a forwarded denial, a foreign `Authorization`, a client `Impersonate-*` header, another identity, or a
-    lost extra-key case). -/
+/-- For EVERY request the judge the harness applies to the implementation accepts the model's output: no forwarded denial,
+    no foreign `Authorization`, no client `Impersonate-*` header, no other identity, no lost extra-key case, no altered value. -/
 theorem c02_judge_model (token : Str) (raw : List (Str × Str)) (auth : Option Identity)
     (az : Attrs → Decision) (up : Bool) :
-    ∀ c ∈ judge token up (expectedFor raw auth az) (upstreamOf (serve token raw auth az up)), c = Class.valueNotCarried := by
-  intro c hc
+    judge token up (expectedFor raw auth az) (upstreamOf (serve token raw auth az up)) = [] := by
   cases hs : serve token raw auth az up with
   | forwarded recv ctx =>
     have he := c02_forwarded_only_as_expected token raw auth az up recv ctx hs
-    simp only [hs, upstreamOf, he, judge, List.flatMap_cons, List.flatMap_nil, List.append_nil] at hc
+    simp only [upstreamOf, he, judge, List.flatMap_cons, List.flatMap_nil, List.append_nil]
     have hA := c02_no_client_identity_header token raw auth az up recv ctx hs hAuthorization (by decide)
     have hN : namesAgree (recv.filter (fun e => hasPrefix e.1 hImpPrefix))
         ((sendOver up (gatewayHeaders token up ctx)).filter (fun e => hasPrefix e.1 hImpPrefix)) = true := by
@@ -208,48 +250,12 @@ theorem c02_judge_model (token : Str) (raw : List (Str × Str)) (auth : Option I
         (fun x _ hx => by simpa [hx] using hp)
       rw [k1, k2, hv]
       simp
-    obtain ⟨hn, hg, hx⟩ := c02_identity_decoded token raw auth az up recv ctx hs
-    have hI : identityAgree (decodeIdentity recv) (carryIdentity up ctx) = true := by
-      simp only [identityAgree, Bool.and_eq_true, beq_iff_eq]
-      refine ⟨⟨by simp [carryIdentity, hn], by simp [carryIdentity, hg]⟩, ?_⟩
-      apply multimapAgree_of_values
-      intro k
-      rw [hx k]
-      simp [carryIdentity]
-    simp only [judgeForward, hA, beq_self_eq_true, if_true, hN, List.nil_append, hI] at hc
-    split at hc
-    · simp at hc
-    · simpa using hc
-  | badRequest | unauthorized | internalError | forbidden | transportRefused | upstreamRefused =>
-    rw [hs] at hc
-    simp only [upstreamOf, judge] at hc
-    split at hc <;> simp at hc
-
-/-- … and nothing at all when the identity to act as has only values the wire carries. -/
-theorem c02_judge_model_exact (token : Str) (raw : List (Str × Str)) (auth : Option Identity)
-    (az : Attrs → Decision) (up : Bool)
-    (hx : ∀ id, expectedFor raw auth az = .forward id → valuesCarried up id = true) :
-    judge token up (expectedFor raw auth az) (upstreamOf (serve token raw auth az up)) = [] := by
-  cases hs : serve token raw auth az up with
-  | forwarded recv ctx =>
-    have he := c02_forwarded_only_as_expected token raw auth az up recv ctx hs
-    have hcv := hx ctx he
-    have hall := c02_judge_model token raw auth az up
-    simp only [hs, upstreamOf, he, judge, List.flatMap_cons, List.flatMap_nil, List.append_nil] at hall ⊢
-    obtain ⟨hn, hg, hxx⟩ := c02_identity_exact token raw auth az up recv ctx hs hcv
+    obtain ⟨hn, hg, hxx⟩ := c02_identity_exact token raw auth az up recv ctx hs
     have hI : identityAgree (decodeIdentity recv) ctx = true := by
       simp only [identityAgree, Bool.and_eq_true, beq_iff_eq]
       exact ⟨⟨hn, hg⟩, multimapAgree_of_values _ _ hxx⟩
-    have hA := c02_no_client_identity_header token raw auth az up recv ctx hs hAuthorization (by decide)
-    simp only [judgeForward, hA, beq_self_eq_true, if_true, hI, List.nil_append, List.append_nil] at hall ⊢
-    split
-    · rfl
-    · split
-      · have := hall Class.clientHeaderForwarded (by simp [*])
-        simp at this
-      · have := hall Class.impersonationHeaders (by simp [*])
-        simp at this
-  | badRequest | unauthorized | internalError | forbidden | transportRefused | upstreamRefused =>
+    simp [judgeForward, hA, hN, hI]
+  | badRequest | unauthorized | internalError | forbidden | transportRefused | valueRefused | upstreamRefused =>
     simp only [upstreamOf, judge]
     split <;> simp
 
@@ -329,7 +335,7 @@ example : (match serve exToken exRaw (some exAlice) (fun _ => .allow) false with
 
 /-- the hypotheses of `c02_identity_exact` / `c02_judge_model_exact` hold for it -/
 example : expectedFor exRaw (some exAlice) (fun _ => .allow) = .forward exBob ∧
-    valuesCarried false exBob = true := by decide +kernel
+    checkImpersonationValues exBob = true := by decide +kernel
 
 /-- the same request with the group check denied: the specification says 403, the gateway answers 403 -/
 example : serve exToken exRaw (some exAlice) exDenyDev false = .forbidden ∧
@@ -359,11 +365,18 @@ example : (match serve exToken [([73, 77, 80, 69, 82, 83, 79, 78, 65, 84, 69, 45
         values recv [73, 109, 112, 101, 114, 115, 111, 110, 97, 116, 101, 45, 70, 111, 111] = [] ∧ decodeIdentity recv = exAlice)
     | _ => false) = true := by decide +kernel
 
-/-- an authenticated extra key `Scopes` is decoded as `Scopes` (repaired defect C02-extra-key-case); the recorded
-    limitation is real: a group ` g` is decoded as `g` -/
-example : (match serve exToken [] (some ⟨[97, 108, 105, 99, 101], [[32, 103]], [([83, 99, 111, 112, 101, 115], [[118, 105, 101, 119]])]⟩) (fun _ => .allow) false with
+/-- an authenticated extra key `Scopes` is decoded as `Scopes` (repaired defect C02-extra-key-case) -/
+example : (match serve exToken [] (some ⟨[97, 108, 105, 99, 101], [[103]], [([83, 99, 111, 112, 101, 115], [[118, 105, 101, 119]])]⟩) (fun _ => .allow) false with
     | .forwarded recv _ => decide (decodeIdentity recv = ⟨[97, 108, 105, 99, 101], [[103]], [([83, 99, 111, 112, 101, 115], [[118, 105, 101, 119]])]⟩)
     | _ => false) = true := by decide +kernel
+
+/-- the witnesses of the repaired defect C02-value-not-carried are refused on both paths: group `" g"`, name `"alice "`,
+    group `"dev\nops"` on the upgrade path; the specification says "forward", the hypothesis of `c02_not_carried_refused` holds -/
+example : serve exToken [] (some ⟨[97, 108, 105, 99, 101], [[32, 103]], []⟩) (fun _ => .allow) false = .valueRefused ∧
+    serve exToken [] (some ⟨[97, 108, 105, 99, 101, 32], [], []⟩) (fun _ => .allow) false = .valueRefused ∧
+    serve exToken [] (some ⟨[97, 108, 105, 99, 101], [[100, 101, 118, 10, 111, 112, 115]], []⟩) (fun _ => .allow) true = .valueRefused ∧
+    expectedFor [] (some ⟨[97, 108, 105, 99, 101], [[32, 103]], []⟩) (fun _ => .allow) = .forward ⟨[97, 108, 105, 99, 101], [[32, 103]], []⟩ ∧
+    checkImpersonationValues ⟨[97, 108, 105, 99, 101], [[32, 103]], []⟩ = false := by decide +kernel
 
 /-- a client's `Impersonate-Extra-%41bc` is authorised as `Abc`, travels as `%41bc` again and is decoded as `Abc` -/
 example : (match serve exToken [([73, 109, 112, 101, 114, 115, 111, 110, 97, 116, 101, 45, 85, 115, 101, 114], [98, 111, 98]), ([73, 109, 112, 101, 114, 115, 111, 110, 97, 116, 101, 45, 69, 120, 116, 114, 97, 45, 37, 52, 49, 98, 99], [118])] (some exAlice) (fun _ => .allow) false with
@@ -371,13 +384,10 @@ example : (match serve exToken [([73, 109, 112, 101, 114, 115, 111, 110, 97, 116
         values recv [73, 109, 112, 101, 114, 115, 111, 110, 97, 116, 101, 45, 69, 120, 116, 114, 97, 45, 37, 52, 49, 98, 99] = [[118]])
     | _ => false) = true := by decide +kernel
 
-example : valuesCarried false ⟨[97, 108, 105, 99, 101], [[32, 103]], []⟩ = false := by decide +kernel
+/-! ## the full statement (AGENT_GUIDE §6): proved since /repo 68497bd
 
-/-! ## the full statement, its refutation on this tree, and the partial theorem (AGENT_GUIDE §6)
-
-The recorded finding `findings/C02-value-not-carried` is exactly the distance between the property at full strength and
-what holds of the code (`findings/C02-extra-key-case` was repaired by /repo 0231ee3: extra keys are exact for all byte
-strings now). -/
+Both recorded deviations were repaired (`findings/C02-extra-key-case` by 0231ee3, `findings/C02-value-not-carried` by
+68497bd); the refutations and the partial theorem are gone, the full statement is a theorem. -/
 
 /-- The property at full strength: whatever is forwarded, the upstream reconstructs EXACTLY the identity to act as,
     for every identity (arbitrary bytes in names, groups, extra keys and values). -/
@@ -387,27 +397,7 @@ def C02FullExactness : Prop :=
     (decodeIdentity recv).name = ctx.name ∧ (decodeIdentity recv).groups = ctx.groups ∧
     ∀ k, values (decodeIdentity recv).extra k = values ctx.extra k
 
-/-- alice in the group `" g"` (leading space) -/
-def exEdge : Identity := ⟨[97, 108, 105, 99, 101], [[32, 103]], []⟩
-
-def recvOf (o : Outcome) : Headers := match o with | .forwarded r _ => r | _ => []
-
-/-- refutation by the witness of `findings/C02-value-not-carried`: the group `" g"` arrives as `"g"` -/
-theorem c02_full_exactness_false : ¬ C02FullExactness := by
-  intro h
-  have hs : serve exToken [] (some exEdge) (fun _ => .allow) false =
-      .forwarded (recvOf (serve exToken [] (some exEdge) (fun _ => .allow) false)) exEdge := by decide +kernel
-  have := (h _ _ _ _ _ _ _ hs).2.1
-  revert this
-  decide +kernel
-
-/-- the partial theorem: the full statement restricted by the decidable hypothesis `valuesCarried` (= `c02_identity_exact`);
-    nothing is assumed about user names, groups or extra KEYS beyond that -/
-theorem c02_full_exactness_partial (token : Str) (raw : List (Str × Str)) (auth : Option Identity)
-    (az : Attrs → Decision) (up : Bool) (recv : Headers) (ctx : Identity)
-    (h : serve token raw auth az up = .forwarded recv ctx) (hc : valuesCarried up ctx = true) :
-    (decodeIdentity recv).name = ctx.name ∧ (decodeIdentity recv).groups = ctx.groups ∧
-    ∀ k, values (decodeIdentity recv).extra k = values ctx.extra k :=
-  c02_identity_exact token raw auth az up recv ctx h hc
+theorem c02_full_exactness : C02FullExactness :=
+  fun token raw auth az up recv ctx h => c02_identity_exact token raw auth az up recv ctx h
 
 end KG.Props.C02
